@@ -26,6 +26,7 @@ package main
 import (
 	"fmt"
 	"go/ast"
+	"go/constant"
 	"go/token"
 	"go/types"
 	"regexp"
@@ -85,71 +86,129 @@ func localDef(info *types.Info, body *ast.BlockStmt, id *ast.Ident) ast.Expr {
 	return nil
 }
 
-// refNameCanon reduces the name argument of a "#/components/schemas/%s"
-// reference to a canonical form: NAME<accessor>(message-expression) or a
-// constant, or VARIANT(...) for per-variant schemas.
+// refNameCanon reduces a string-valued expression (the name argument of a
+// "#/components/schemas/%s" reference, a schema key) to a canonical form that does
+// not depend on how the string is put together: constants are folded, `a + b`,
+// fmt.Sprintf with %s verbs and repository helpers with a single return statement
+// (func componentRef(n string) string { return prefix + n }) are all reduced to a
+// sequence of constant and NAME<accessor>(message) segments, rendered as
+//
+//	const:<text>                       — all constant
+//	fmt(<consts joined by %s>;t1;t2…)  — mixed
+//	<term>                             — a single non-constant term
 func (c *Ctx) refNameCanon(info *types.Info, body *ast.BlockStmt, e ast.Expr, depth int) string {
+	segs := c.refSegs(info, body, e, nil, depth)
+	// merge adjacent constants
+	var m []string
+	for _, sg := range segs {
+		if strings.HasPrefix(sg, "c:") && len(m) > 0 && strings.HasPrefix(m[len(m)-1], "c:") {
+			m[len(m)-1] += sg[2:]
+			continue
+		}
+		m = append(m, sg)
+	}
+	if len(m) == 0 {
+		return "const:"
+	}
+	if len(m) == 1 {
+		if strings.HasPrefix(m[0], "c:") {
+			return "const:" + m[0][2:]
+		}
+		return m[0]
+	}
+	format, terms := "", []string{}
+	for _, sg := range m {
+		if strings.HasPrefix(sg, "c:") {
+			format += sg[2:]
+		} else {
+			format += "%s"
+			terms = append(terms, sg)
+		}
+	}
+	return "fmt(" + format + ";" + strings.Join(terms, ";") + ")"
+}
+
+// refSegs: env maps parameter names of an inlined helper to the segments of the argument.
+func (c *Ctx) refSegs(info *types.Info, body *ast.BlockStmt, e ast.Expr, env map[string][]string, depth int) []string {
 	e = ast.Unparen(e)
 	if tv, ok := info.Types[e]; ok && tv.Value != nil {
-		return "const:" + strings.Trim(tv.Value.ExactString(), `"`)
+		if tv.Value.Kind() == constant.String {
+			return []string{"c:" + constant.StringVal(tv.Value)}
+		}
+		return []string{"c:" + tv.Value.ExactString()}
 	}
 	switch x := e.(type) {
 	case *ast.Ident:
-		if depth < 4 {
+		if sg, ok := env[x.Name]; ok {
+			return sg
+		}
+		if depth < 5 && body != nil {
 			if d := localDef(info, body, x); d != nil {
-				return c.refNameCanon(info, body, d, depth+1)
+				return c.refSegs(info, body, d, env, depth+1)
 			}
 		}
-		return "var:" + x.Name
+		return []string{"var:" + x.Name}
+	case *ast.BinaryExpr:
+		if x.Op == token.ADD {
+			return append(c.refSegs(info, body, x.X, env, depth), c.refSegs(info, body, x.Y, env, depth)...)
+		}
 	case *ast.CallExpr:
 		// conversion string(…)
 		if tv, ok := info.Types[x.Fun]; ok && tv.IsType() && len(x.Args) == 1 {
-			return c.refNameCanon(info, body, x.Args[0], depth)
+			return c.refSegs(info, body, x.Args[0], env, depth)
 		}
 		if fn := Callee(info, x); fn != nil {
 			if fn.Name() == "Sprintf" && fn.Pkg() != nil && fn.Pkg().Path() == "fmt" && len(x.Args) >= 1 {
-				if tv, ok := info.Types[x.Args[0]]; ok && tv.Value != nil {
-					f := strings.Trim(tv.Value.ExactString(), `"`)
-					parts := []string{}
-					for _, a := range x.Args[1:] {
-						parts = append(parts, c.refNameCanon(info, body, a, depth))
+				if tv, ok := info.Types[x.Args[0]]; ok && tv.Value != nil && tv.Value.Kind() == constant.String {
+					f := constant.StringVal(tv.Value)
+					pieces := strings.Split(f, "%s")
+					if len(pieces) == len(x.Args) && !strings.Contains(strings.Join(pieces, ""), "%") {
+						var out []string
+						for i, pc := range pieces {
+							if pc != "" {
+								out = append(out, "c:"+pc)
+							}
+							if i < len(x.Args)-1 {
+								out = append(out, c.refSegs(info, body, x.Args[i+1], env, depth)...)
+							}
+						}
+						return out
 					}
-					return "fmt(" + f + ";" + strings.Join(parts, ";") + ")"
+					return []string{"fmtv(" + f + ")"}
 				}
 			}
-			// a repo function returning a name: substitute its single return expression
-			if decl := c.P.Decls[fn]; decl != nil && decl.Body != nil && len(decl.Body.List) == 1 && depth < 4 {
-				if ret, ok := decl.Body.List[0].(*ast.ReturnStmt); ok && len(ret.Results) == 1 && len(x.Args) == 1 && decl.Type.Params.NumFields() == 1 {
-					inner := c.refNameCanon(c.P.DeclPkg[fn].TypesInfo, decl.Body, ret.Results[0], depth+1)
-					// inner is expressed over the callee's parameter; it is a NAME form
-					// when it mentions only the parameter
-					param := decl.Type.Params.List[0].Names[0].Name
-					if strings.HasSuffix(inner, "("+param+")") {
-						return strings.TrimSuffix(inner, "("+param+")") + "(M)"
+			// a repository function with a single return statement: substitute its result, parameters bound to the arguments
+			if decl := c.P.Decls[fn]; decl != nil && decl.Body != nil && len(decl.Body.List) == 1 && depth < 5 {
+				if ret, ok := decl.Body.List[0].(*ast.ReturnStmt); ok && len(ret.Results) == 1 {
+					var params []string
+					for _, p := range decl.Type.Params.List {
+						for _, n := range p.Names {
+							params = append(params, n.Name)
+						}
 					}
-					return "call:" + fn.Name() + "→" + inner
+					if len(params) == len(x.Args) {
+						env2 := map[string][]string{}
+						for i, pn := range params {
+							env2[pn] = c.refSegs(info, body, x.Args[i], env, depth+1)
+						}
+						return c.refSegs(c.P.DeclPkg[fn].TypesInfo, nil, ret.Results[0], env2, depth+1)
+					}
 				}
 			}
 			// method value like X.Desc.Name()
 			if sel, ok := x.Fun.(*ast.SelectorExpr); ok && len(x.Args) == 0 {
 				if in, ok := sel.X.(*ast.SelectorExpr); ok && in.Sel.Name == "Desc" {
 					if t := info.TypeOf(in.X); t != nil && typeIsNamed(t, "compiler/protogen", "Message") {
-						recv := types.ExprString(in.X)
-						if id, ok := in.X.(*ast.Ident); ok {
-							recv = id.Name
-						} else {
-							recv = "M"
-						}
-						return "NAME." + sel.Sel.Name + "(" + recv + ")"
+						return []string{"NAME." + sel.Sel.Name + "(M)"}
 					}
 				}
 			}
-			return "call:" + fn.Name()
+			return []string{"call:" + fn.Name()}
 		}
 	case *ast.SelectorExpr:
-		return "sel:" + types.ExprString(x)
+		return []string{"sel:" + types.ExprString(x)}
 	}
-	return "expr:" + types.ExprString(e)
+	return []string{"expr:" + types.ExprString(e)}
 }
 
 var c18TemplateVar = regexp.MustCompile(`\{([^}/]+)\}`)
@@ -216,8 +275,13 @@ func checkC18(c *Ctx) {
 		switch {
 		case strings.HasPrefix(rc, "const:"+prefix):
 			target = "const:" + strings.TrimPrefix(rc, "const:"+prefix)
-		case strings.HasPrefix(rc, "fmt("+prefix+"%s;"):
-			target = strings.TrimSuffix(strings.TrimPrefix(rc, "fmt("+prefix+"%s;"), ")")
+		case strings.HasPrefix(rc, "fmt("+prefix):
+			rest := strings.TrimSuffix(strings.TrimPrefix(rc, "fmt("+prefix), ")")
+			if strings.HasPrefix(rest, "%s;") && !strings.Contains(rest[3:], ";") {
+				target = rest[3:] // prefix + one term
+			} else {
+				target = "fmt(" + rest + ")" // prefix + composed name (per-variant schemas)
+			}
 			target = regexp.MustCompile(`\((\w+)\)$`).ReplaceAllString(target, "(M)")
 		default:
 			r.Unres("R18a", "reference in "+rf.fn+" ("+rc+")", rf.pos, "reference target is not a constant or a Sprintf of the schema prefix: "+rc)
@@ -756,22 +820,46 @@ func c18PerService(c *Ctx) {
 		}
 		return true
 	})
+	// anchors outside package main, counted through the local wrappers the loop body calls (which a clean-up may
+	// inline or introduce): the generator constructor, Render, and the creation of the output file
 	calls := map[string]int{}
 	skip := false
-	ast.Inspect(rs.Body, func(n ast.Node) bool {
-		switch x := n.(type) {
-		case *ast.CallExpr:
-			if cal := Callee(loopInfo, x); cal != nil {
+	seenFn := map[*types.Func]bool{}
+	var count func(info *types.Info, n ast.Node)
+	count = func(info *types.Info, n ast.Node) {
+		ast.Inspect(n, func(n ast.Node) bool {
+			x, ok := n.(*ast.CallExpr)
+			if !ok {
+				return true
+			}
+			cal := Callee(info, x)
+			if cal == nil {
+				return true
+			}
+			if d := c.P.Decls[cal]; d != nil && cal.Pkg() != nil && strings.HasSuffix(cal.Pkg().Path(), cmdOpenAPI) {
+				if !seenFn[cal] {
+					seenFn[cal] = true
+					count(c.P.DeclPkg[cal].TypesInfo, d.Body)
+				}
+				return true
+			}
+			switch cal.Name() {
+			case "NewGenerator", "Render", "NewGeneratedFile", "ProcessService", "CollectReferencedMessages":
 				calls[cal.Name()]++
 			}
-		case *ast.BranchStmt:
+			return true
+		})
+	}
+	count(loopInfo, rs.Body)
+	ast.Inspect(rs.Body, func(n ast.Node) bool {
+		if _, ok := n.(*ast.BranchStmt); ok {
 			skip = true
 		}
 		return true
 	})
-	r.Check(calls["createServiceGenerator"] == 1 && calls["renderService"] == 1 && calls["writeServiceFile"] == 1 && !skip, "R18d",
+	r.Check(calls["NewGenerator"] == 1 && calls["Render"] == 1 && calls["NewGeneratedFile"] == 1 && calls["ProcessService"] == 1 && !skip, "R18d",
 		"every service gets its own generator, one rendering and one file", c.P.Pos(rs.Pos()),
-		fmt.Sprintf("the per-service loop calls %v (continue/break: %v): a service without a document, or several services in one", calls, skip))
+		fmt.Sprintf("the per-service loop (with the local functions it calls) reaches %v (continue/break: %v): a service without a document, or several services in one", calls, skip))
 	// file name: Sprintf with service name and ext; ext depends on format
 	for fn, decl := range mainDecls {
 		if fn.Name() != "writeServiceFile" {
@@ -910,48 +998,46 @@ func c18Render(c *Ctx) {
 			fmt.Sprintf("the document is written by %s (YAML 1.2 core schema) and re-read for JSON by %s (a YAML 1.1 reader): plain scalars y/n/yes/no/on/off in any case (an enum value or discriminator value named NO, ON, Y …) stay strings in the YAML rendering and become booleans in the JSON rendering, so the two renderings denote different documents", marshalPkg, readPkg))
 	}
 	r.Check(hasJSON, "R18e", "the json format is rendered as JSON", c.P.Pos(decl.Pos()), "the FormatJSON arm of Render does not convert to JSON")
-	// parseFormat vocabulary
-	for fn, d := range c.oaDecls(cmdOpenAPI) {
-		if fn.Name() != "parseFormat" {
-			continue
+	// parseFormat vocabulary: the function is interpreted on concrete parameter strings
+	if pf := c.P.Func(cmdOpenAPI, "parseFormat"); pf != nil {
+		pos := c.P.Pos(c.P.Decls[pf].Pos())
+		c.W.Concrete, c.W.ExternStructs = true, true
+		type pcase struct {
+			param *string
+			want  string
 		}
-		minfo := c.P.DeclPkg[fn].TypesInfo
-		table := map[string]string{}
-		ast.Inspect(d.Body, func(n ast.Node) bool {
-			cc, ok := n.(*ast.CaseClause)
-			if !ok {
-				return true
+		str := func(s string) *string { return &s }
+		cases := []pcase{{nil, "yaml"}, {str(""), "yaml"}, {str("format=json"), "json"}, {str("format=yaml"), "yaml"}, {str("format=yml"), "yaml"},
+			{str("paths=source_relative,format=json"), "json"}, {str("format=xml"), "yaml"}, {str("paths=source_relative"), "yaml"}}
+		got := map[string]string{}
+		bad := []string{}
+		for _, pc := range cases {
+			var pv Val = VNil{}
+			gp := constStr("")
+			label := "<no parameter>"
+			if pc.param != nil {
+				pv, gp, label = constStr(*pc.param), constStr(*pc.param), *pc.param
 			}
-			target := ""
-			for _, st := range cc.Body {
-				if as, ok := st.(*ast.AssignStmt); ok && len(as.Rhs) == 1 {
-					target = types.ExprString(as.Rhs[0])
-				}
+			req := cstruct("CodeGeneratorRequest", map[string]Val{"Parameter": pv, "GetParameter()": gp})
+			run := c.W.NewRun(map[string]int{}, false)
+			run.InlineAll, run.FollowSlices = true, true
+			run.CallHook = c.cdescHook
+			run.StartArgs(pf, map[string]Val{"req": req})
+			if len(run.Used) > 0 || run.Aborted != "" {
+				r.Undec("R18e", "format parameter "+label, pos, fmt.Sprintf("parseFormat does not evaluate: open decisions %v aborted %q", usedKeys(run), run.Aborted))
+				continue
 			}
-			for _, e := range cc.List {
-				if tv, ok := minfo.Types[e]; ok && tv.Value != nil {
-					table[strings.Trim(tv.Value.ExactString(), `"`)] = target
-				}
-			}
-			return true
-		})
-		want := map[string]string{"json": "openapiv3.FormatJSON", "yaml": "openapiv3.FormatYAML", "yml": "openapiv3.FormatYAML"}
-		okT := len(table) == len(want)
-		for k, v := range want {
-			if table[k] != v {
-				okT = false
+			g := valText(run.Result)
+			got[label] = g
+			if g != pc.want {
+				bad = append(bad, fmt.Sprintf("%q → %s (documented: %s)", label, g, pc.want))
 			}
 		}
-		// default
-		def := ""
-		ast.Inspect(d.Body, func(n ast.Node) bool {
-			if as, ok := n.(*ast.AssignStmt); ok && as.Tok == token.DEFINE && types.ExprString(as.Lhs[0]) == "format" {
-				def = types.ExprString(as.Rhs[0])
-			}
-			return true
-		})
-		r.Check(okT && def == "openapiv3.FormatYAML", "R18e", "format parameter: json→JSON, yaml|yml→YAML, default YAML", c.P.Pos(d.Pos()),
-			fmt.Sprintf("parseFormat maps %v with default %s", table, def))
+		c.W.Concrete, c.W.ExternStructs = false, false
+		r.Check(len(bad) == 0 && len(got) == len(cases), "R18e", "format parameter: json→JSON, yaml|yml→YAML, default YAML", pos,
+			fmt.Sprintf("parseFormat evaluated on concrete plugin parameters: %s", strings.Join(bad, "; ")))
+	} else {
+		r.Unres("R18e", "parseFormat", "", "not found in "+cmdOpenAPI)
 	}
 }
 
